@@ -26,7 +26,7 @@ ASSUMPTIONS = [
     "order among combinations with equal key is not judged",
     "for sorted_combinations the elements are orderable (its heap compares combinations on key ties); for the interval search the elements are an arbitrary payload (dicts, plain objects)",
 ]
-SHARD_TIMEOUT = {"quick": 900, "thorough": 3600}
+SHARD_TIMEOUT = {"quick": 300, "thorough": 3600}
 NSHARDS = 16
 
 KEYS = {
